@@ -145,7 +145,7 @@ def _chunk(args):
         hard = getattr(sim, "RUN_TIMEOUT", 60) + 240      # last resort if the SIGALRM watchdog cannot interrupt (a C call that never returns)
         out = {
             "start": start, "runs": 0, "events": 0, "nontrivial": 0, "sigs": set(), "probes": Counter(), "faults": Counter(),
-            "notes": Counter(), "failures": [], "digest": hashlib.sha256(), "samples": [], "kernel_entries": 0, "error": None,
+            "notes": Counter(), "failures": [], "digests": [], "samples": [], "kernel_entries": 0, "error": None,
         }
         for idx in range(start, start + count):
             faulthandler.dump_traceback_later(hard, exit=True)
@@ -164,14 +164,13 @@ def _chunk(args):
             if st.nontrivial:
                 out["nontrivial"] += 1
                 out["sigs"].add(st.signature())
-            out["digest"].update(st.digest().encode())
+            out["digests"].append(st.digest())
             if want_events and len(out["samples"]) < want_events and st.nontrivial:
                 out["samples"].append({"run_index": idx, "knobs": st.knobs, "events": st.events[:60]})
             if st.failures and len(out["failures"]) < 4:
                 clause, msg, detail = st.failures[0]
                 out["failures"].append({"run_index": idx, "clause": clause, "message": msg, "detail": detail,
                                         "knobs": st.knobs, "events": st.events})
-        out["digest"] = out["digest"].hexdigest()
         return out
     except BaseException as e:  # harness problem inside a worker
         return {"start": start, "error": f"[run {idx}] {type(e).__name__}: {e}\n{traceback.format_exc()}"}
@@ -257,7 +256,8 @@ def check(prop, tier, seed, runs=None, workers=None, wall_cap=None, selftest=Tru
         agg["faults"].update(res["faults"])
         agg["notes"].update(res["notes"])
         agg["failures"].extend(res["failures"])
-        agg["digest"].update(res["digest"].encode())
+        for dg in res["digests"]:          # per run, in run-index order: independent of how the runs were cut into chunks
+            agg["digest"].update(dg.encode())
         agg["samples"].extend(res["samples"])
 
     # determinism self-test: same run indices again in this process and in a fresh
